@@ -15,6 +15,7 @@ import (
 	"github.com/bluenviron/gomavlib/v3/pkg/frame"
 	"github.com/bluenviron/gomavlib/v3/pkg/message"
 	"github.com/bluenviron/gomavlib/v3/pkg/streamwriter"
+	"github.com/bluenviron/gomavlib/v3/pkg/timednetconn"
 )
 
 func init() { cmds["wlink"] = cmdWLink }
@@ -36,6 +37,8 @@ type WCfg struct {
 type flakySink struct {
 	recWriter
 	failNext error
+	partial  bool // the failing call takes the first half of what it is given (a deadline expiring in the middle of a frame)
+	took     int  // how much the failing call took (-1: no failing call yet)
 }
 
 func (s *flakySink) Write(p []byte) (int, error) {
@@ -43,10 +46,28 @@ func (s *flakySink) Write(p []byte) (int, error) {
 		err := s.failNext
 		s.failNext = nil
 		s.calls++
+		if s.partial && len(p) > 1 {
+			s.took = len(p) / 2
+			s.buf.Write(p[:s.took])
+			return s.took, err
+		}
+		s.took = 0
 		return 0, err
 	}
 	return s.recWriter.Write(p)
 }
+
+// sinkConn: the sink as a net.Conn, for links that write through the deadline wrapper the node puts around its sockets
+type sinkConn struct{ s *flakySink }
+
+func (c sinkConn) Read([]byte) (int, error)         { return 0, io.EOF }
+func (c sinkConn) Write(p []byte) (int, error)      { return c.s.Write(p) }
+func (c sinkConn) Close() error                     { return nil }
+func (c sinkConn) LocalAddr() net.Addr              { return &net.TCPAddr{} }
+func (c sinkConn) RemoteAddr() net.Addr             { return &net.TCPAddr{} }
+func (c sinkConn) SetDeadline(time.Time) error      { return nil }
+func (c sinkConn) SetReadDeadline(time.Time) error  { return nil }
+func (c sinkConn) SetWriteDeadline(time.Time) error { return nil }
 
 type deadlineErr struct{}
 
@@ -56,7 +77,9 @@ func (deadlineErr) Temporary() bool { return true }
 func (deadlineErr) Unwrap() error   { return os.ErrDeadlineExceeded }
 
 var failKinds = map[string]error{"generic": errors.New("verif: write failed"), "deadline": deadlineErr{}, "eof": io.EOF,
-	"closed": net.ErrClosed, "short": io.ErrShortWrite}
+	"closed": net.ErrClosed, "short": io.ErrShortWrite,
+	// what a TCP connection reports when the write deadline expires after part of the buffer went out
+	"partial_deadline": &net.OpError{Op: "write", Net: "tcp", Err: os.ErrDeadlineExceeded}}
 
 type witem struct {
 	fail    string // transport failure injected for this write ("" = none)
@@ -93,6 +116,10 @@ func mkLink(impl string, cfg WCfg, drw *dialect.ReadWriter, sink io.Writer) (lw 
 			ok, panicked = false, true
 		}
 	}()
+	// links with an even system id write through timednetconn (what a node puts around its TCP and UDP sockets)
+	if fs, isFlaky := sink.(*flakySink); isFlaky && cfg.Sys%2 == 0 {
+		sink = timednetconn.New(time.Second, time.Second, sinkConn{fs})
+	}
 	if impl == "streamwriter" {
 		fw := &frame.Writer{ByteWriter: sink, DialectRW: drw}
 		if err := fw.Initialize(); err != nil {
@@ -154,8 +181,10 @@ func runLink(rec *Rec, impl string, cfg WCfg, drw *dialect.ReadWriter, dl []int,
 			m = &message.MessageRaw{ID: uint32(it.id), Payload: append([]byte{}, it.payload...)}
 			w["id"], w["payload"] = it.id, it.payload
 		}
+		sink.took = -1
 		if it.fail != "" {
 			sink.failNext = failKinds[it.fail]
+			sink.partial = it.fail == "partial_deadline"
 		}
 		w["inj"] = it.fail != ""
 		t0 := ticksNow()
@@ -172,6 +201,7 @@ func runLink(rec *Rec, impl string, cfg WCfg, drw *dialect.ReadWriter, dl []int,
 		w["ok"] = err == nil && !p
 		w["panic"] = p
 		w["out"] = B(append([]byte{}, sink.buf.Bytes()[before:]...))
+		w["took"] = sink.took
 		w["t0"], w["t1"] = le(t0, 6), le(t1, 6)
 		ws = append(ws, w)
 	}
@@ -236,7 +266,7 @@ func cmdWLink(o opts) {
 					vals: zeroVals(notInCommon)})
 			case refusals && c < 9: // the transport fails this write (timeouts, closed pipes, generic errors): nothing goes out
 				items = append(items, witem{kind: "msg", d: ix[reflect.TypeOf(m)], msg: m, vals: vals,
-					fail: []string{"generic", "deadline", "eof", "closed", "short"}[r.Intn(5)]})
+					fail: []string{"generic", "deadline", "eof", "closed", "short", "partial_deadline", "partial_deadline"}[r.Intn(7)]})
 			case c < 25: // raw (already encoded) message of the dialect
 				rwm := drw.GetMessage(m.GetID())
 				pl, _ := safeWrite(rwm, newMsg(m, vals), v == 2)
